@@ -1086,6 +1086,10 @@ moqQUICAddress: :%d
 		desc := map[string]any{"kind": kind, "steps": descSteps, "pointer_params_reallocated": "all pointer-typed parameters (Clone)"}
 		if len(init.notHeld) > 0 || len(init.stale) > 0 {
 			desc["before_not_holding"] = init.notHeld
+			// (long on purpose: the orchestrator shows the failing case with the shortest description first)
+			desc["note"] = "the Core was ALREADY inconsistent when this history started: an earlier history of this run left a component " +
+				"without the current value (see the earlier failing case, which starts from a consistent Core); this case alone is not a " +
+				"replay from a freshly started Core"
 			desc["before_stale"] = init.stale
 		}
 		out.Case(cqApp("History", s.term(init, relevant), cqList(terms)), desc, class, nontrivial)
